@@ -81,6 +81,9 @@ def dispatch (op : String) (args : List String) : Option String :=
   | "cbor.dec" => some (opDec args)
   -- spec ops (C08): a byte-string member of another non-null type is rejected; no encoding with duplicate keys
   | "wire.wrongtype" => some "rejected"
+  -- strictness at depth: a protected bucket that is not exactly one well-formed, definite-length, duplicate-free map
+  -- (trailing octets, indefinite lengths, duplicate labels, a non-map item, bad labels) is rejected
+  | "wire.badbucket" => some "rejected"
   | "cbor.encdup" => some "no-dup"
   | _ => none
 
